@@ -89,6 +89,7 @@ func stackVariants(full bool) []struct {
 		{"f(1,p1)@11", one(F, FILE, 11, Sc(1), Sc(p1))},
 		{"f(1,p1)@other.go", one(F, "/src/app/other.go", 10, Sc(1), Sc(p1))},
 		{"f(_,p1)", one(F, FILE, 10, TooLarge(), Sc(p1))},
+		{"f(0,p1)", one(F, FILE, 10, Sc(0), Sc(p1))}, // differs from f(_,p1) only by the too-large marker
 		{"f(1,p1)+h(3)", stack.Stack{Calls: []stack.Call{MkCall(F, FILE, 10, 0, stack.Args{Values: []stack.Arg{Sc(1), Sc(p1)}}), MkCall("main.h", FILE, 20, 0, stack.Args{Values: []stack.Arg{Sc(3)}})}}},
 		{"f(1,p2)+h(4)", stack.Stack{Calls: []stack.Call{MkCall(F, FILE, 10, 0, stack.Args{Values: []stack.Arg{Sc(1), Sc(p2)}}), MkCall("main.h", FILE, 20, 0, stack.Args{Values: []stack.Arg{Sc(4)}})}}},
 	}
@@ -123,7 +124,7 @@ func stackVariants(full bool) []struct {
 	return out
 }
 
-// Universe builds the signature universe. size: "small" (~100), "medium" (~170), "large" (~400+).
+// Universe builds the signature universe. size: "small" (a star of ~140 signatures), "medium" (nearly the full product, ~530), "large" (full product with more contexts and stack variants).
 func Universe(size string) []SnapVariant {
 	states := []string{"chan receive", "select"}
 	lockeds := []bool{false, true}
@@ -148,8 +149,14 @@ func Universe(size string) []SnapVariant {
 			for sli, sl := range sleeps {
 				for ci, cr := range creators {
 					for ki, sv := range stacks {
-						if size == "small" && (si+li+sli+ci+ki)%2 == 1 {
-							continue
+						if size == "small" {
+							// a star, not a product: every stack variant in the base context (so that any two of them
+							// meet with everything else equal), every context with a few representative stacks
+							base := si == 0 && li == 0 && sli == 0 && ci == 0
+							rep := ki == 0 || ki == 1 || ki == 2 || ki == 3 || sv.desc == "g(1,p1)"
+							if !base && !rep {
+								continue
+							}
 						}
 						if size == "medium" && sli == 1 && ci == 2 && ki%2 == 1 {
 							continue
